@@ -392,7 +392,7 @@ func c12Identity(c *Ctx) {
 			}
 			n++
 			for _, lf := range leaves(fl, st.Val, in) {
-				k := fl.K.Key(lf.Val)
+				k := lf.KeyIn(fl)
 				if strings.HasPrefix(k, peer) && strings.HasSuffix(k, "#0") {
 					continue
 				}
